@@ -37,7 +37,10 @@ def _registrations(b, sym, module):
     for i, t in b.calls():
         c = t["callee"]
         if callee_matches(c, module + "::PendingRequestGuard::register"):
-            out.append((i, t, sym.op(t["args"][1])))
+            # the request id is the u64 argument, wherever it sits in the list
+            tys = t.get("arg_tys") or []
+            ks = [k_ for k_, ty_ in enumerate(tys) if ty_ == "u64"]
+            out.append((i, t, sym.op(t["args"][ks[0] if len(ks) == 1 else 1])))
         elif c["name"] == "insert" and "HashMap" in c["path"] and "pending" in render(sym.op(t["args"][0])):
             out.append((i, t, sym.op(t["args"][1])))
     return out
@@ -94,9 +97,18 @@ def run(facts, R):
                     same = key[0] == "field" and key[2] == "id" and key[1][0] == "field" and key[1][2] == "header" and key[1][1] == msg
                     det = "key=%s msg=%s" % (render(key), render(msg))
                 else:
-                    ids = [x for x in walk(msg) if is_call(x, "MessageBuilder::id")]
-                    same = len(ids) == 1 and ids[0][2][1] == key and is_call(key, "next_request_id")
-                    det = "key=%s header.id=%s" % (render(key), render(ids[0][2][1]) if ids else None)
+                    msgs = [msg]
+                    if getattr(b, "changed", False):
+                        # the message may be built by a spliced helper and arrive through `?`: one value per reaching definition
+                        from analysis.sym import split_eval
+                        alts_ = split_eval(sym, wi, len(b.blocks[wi]["stmts"]), lambda v_: v_.op(wt["args"][1]))
+                        if alts_:
+                            msgs = [v_ for _, v_ in alts_]
+                    same, det = True, ""
+                    for m_ in msgs:
+                        ids = [x for x in walk(m_) if is_call(x, "MessageBuilder::id")]
+                        same = same and len(ids) == 1 and ids[0][2][1] == key and is_call(key, "next_request_id")
+                        det = "key=%s header.id=%s" % (render(key), render(ids[0][2][1]) if ids else None)
                 R.check(same, "id-source", b.path, "header id == registered key",
                         "the id written in the request header and the key the waiter is registered under differ (%s)" % det, wt.get("span"), det)
                 R.check(b.dominates(ri, wi) and ri != wi, "register-before-write", b.path, "registration dominates write",
@@ -122,7 +134,7 @@ def run(facts, R):
                 fs = facts_at(rg, rs, facts, i)
                 dup = any(is_call(f["expr"], "contains_key") and f["val"] is False and f["expr"][2][1] == rs.op(t["args"][1]) for f in fs)
                 keyarg = rs.op(t["args"][1])
-                R.check(dup and keyarg[0] == "arg" and keyarg[1] == 2, "id-source", rg.path, "duplicate key refused",
+                R.check(dup and keyarg[0] == "arg" and rg.local_ty(keyarg[1]) == "u64", "id-source", rg.path, "duplicate key refused",
                         "register inserts %s without first refusing an id that is already in flight; guards: %s" % (render(keyarg), texts(fs)), t.get("span"),
                         "insert(request_id) only if !contains_key(request_id)")
             for i, t in vac:
@@ -132,7 +144,7 @@ def run(facts, R):
                 keyarg = ent[0][2][1] if ent and len(ent[0][2]) > 1 else None
                 fs = facts_at(rg, rs, facts, i)
                 vacant = any(is_call(f["expr"], "entry") and str(f["val"]) == "Vacant" for f in fs)
-                R.check(vacant and keyarg is not None and keyarg[0] == "arg" and keyarg[1] == 2, "id-source", rg.path, "duplicate key refused",
+                R.check(vacant and keyarg is not None and keyarg[0] == "arg" and rg.local_ty(keyarg[1]) == "u64", "id-source", rg.path, "duplicate key refused",
                         "register inserts through %s without being on the Vacant edge of entry(request_id); guards: %s" % (render(slot)[:80], texts(fs)), t.get("span"),
                         "entry(request_id): Vacant -> insert, Occupied -> refuse")
 
